@@ -419,6 +419,25 @@ fn scalar_json<'tcx>(cx: &Cx<'tcx>, s: Scalar, ty: Ty<'tcx>) -> J {
                         while depth < 4 {
                             let inner = cur.inner();
                             let ptrs = inner.provenance().ptrs();
+                            if ptrs.len() == 1 && inner.len() == 16 {
+                                // fat pointer (&str / &[u8]) behind a reference: (ptr, len)
+                                let (_o, prov) = ptrs.iter().next().map(|(o, p)| (*o, *p)).unwrap();
+                                let raw = inner.inspect_with_uninit_and_ptr_outside_interpreter(8..16);
+                                let mut lb = [0u8; 8];
+                                lb.copy_from_slice(raw);
+                                let ln = u64::from_le_bytes(lb) as usize;
+                                if let Some(GlobalAlloc::Memory(n)) = cx.tcx.try_get_global_alloc(prov.alloc_id()) {
+                                    if let Some(b) = alloc_bytes(n.inner()) {
+                                        if ln <= b.len() {
+                                            res = match std::str::from_utf8(&b[..ln]) {
+                                                Ok(st) => J::Obj(vec![("str".into(), J::Str(st.to_string()))]),
+                                                Err(_) => J::Obj(vec![("ref_bytes".into(), bytes_json(&b[..ln]))]),
+                                            };
+                                        }
+                                    }
+                                }
+                                break;
+                            }
                             if ptrs.len() != 1 || inner.len() != 8 {
                                 break;
                             }
